@@ -58,6 +58,13 @@ def classify(op, out):
 
 PROP = dict(
     id="C05",
+    level_text="Kernel-checked Lean theorems over all permission sets and all strings (round trip, case-insensitivity, rejection of "
+               "unknown letters, delta law, tracker convergence by induction over any change sequence); the model is tied to "
+               "types.go by an exhaustive differential run (all 256x256 pairs, all short strings) on every run.",
+    level_note="Trusted: Lean kernel; the hand-written model Model/Acs.lean is tied to the code only by the differential run "
+               "(exhaustive for pairs and short strings, sampled for longer strings); notifySubChange/updateAcsFromPresMsg are "
+               "modelled as notifyStr/applyMutation.",
+    technique="Lean 4 proof (BitVec extensionality + list induction) + exhaustive differential correspondence",
     modules=["TinodeVerif.Props.C05"],
     theorems=[T + n for n in ["marshal_parse", "parse_case_insensitive", "parse_reject_unchanged", "empty_is_nochange",
                               "effective_is_inter", "delta_apply", "notify_apply", "proxy_tracks_master"]],
